@@ -176,22 +176,6 @@ theorem getColinearY_none (p0 p1 : K × K) (x : K) : getColinearY FK p0 p1 x = n
 
 end TF.Model.Poly
 
-namespace TF.Model.PolyD
-variable {K : Type} [Field K] (root : Nat → Option K)
-local notation "FK" => FieldOps.ofField K root
-
-theorem truncateUsize_eq (p : List K) (k : Nat) (h : k + 1 < 2 ^ 64) :
-    truncateUsize FK p k = truncate FK p k := by
-  unfold truncateUsize truncate TF.Model.Poly.USIZE_MOD
-  rw [Nat.mod_eq_of_lt h]
-
-theorem truncateUsize_max (p : List K) : truncateUsize FK p (2 ^ 64 - 1) = [] := by
-  unfold truncateUsize TF.Model.Poly.USIZE_MOD
-  have : (2 ^ 64 - 1 + 1) % 2 ^ 64 = 0 := by norm_num
-  rw [this]; simp
-
-end TF.Model.PolyD
-
 namespace TF.Model.PolyI
 open TF.Model.Poly
 variable {K : Type} [Field K] (root : Nat → Option K)
